@@ -41,7 +41,54 @@ def run(ck):
     mm = t2.record(ck, res, ("status",), "which accepted inputs reach a panic site during expansion")
     if mm and not [v for v in ck.violations if not v["no_input"]]:
         ck.report("corr:T2-status", "the model's panic-site prediction no longer matches the implementation", dict(first=mm[:3], broken="correspondence T2/status; C13_expand_no_panic depends on it"), no_input=True)
+    compiler_histories(ck)
     ck.assumptions += ["syn's own parsers (Expr, Path, ExprClosure, literals) are trusted not to panic; stack exhaustion on deeply nested input is not explored; the parser is modelled (Parse.lean, with syn's answers as oracle tables quantified universally in the theorems) and tied on every T1 input; None-delimited groups (macro_rules fragments) are not in the parser model; the model parser recurses on fuel; C13_no_out_of_fuel proves that 2 x tokens + 8 suffices for every token stream and oracle (the driver uses 2 x tokens + 16)"]
+
+
+REJECTED = ['v, S { s: =~ r"a(b" }', 'v, S { s: =~ r"[z-a]" }', 'v, S { s: =~ r"*x" }', 'v, S { a: 1, b: }', 'v, S { a: }', 'v, (1: 1, 2)', 'v, S { a: == }', 'v, #( .., 1)', 'v, [1, 2',
+            'v, S { a: 1 .. }', 'v', 'v, S { 4294967295: 1, .. }', 'v, S { a: |x, y| true }', 'v, #{ "k" 1 }', 'v, _ { a: 1 }']
+ACCEPTED = ['v, S { s: =~ r"a(b)", .. }', 'v, S { a: 1, .. }', 'v, S { a: > 0, s: "x", .. }']
+
+
+def compiler_histories(ck):
+    """The macro as invoked by rustc, on invocations it must reject, ALONE and REPEATED within one compilation (the same rejected
+    invocation two and three times, two different ones, a rejected one before and after an accepted one): whatever an earlier
+    invocation left behind in the macro's process (thread-locals, caches of errors, counters), every invocation ends in ordinary
+    compile errors - never in `proc macro panicked`, an internal compiler error or a crash of the compiler."""
+    import e2e
+    import t3
+    decl = "#[derive(Debug)] pub struct S { pub a: i32, pub b: i32, pub s: String }\npub fn mk() -> S { S { a: 1, b: 2, s: \"x\".to_string() } }\n"
+    progs = []
+    for r in REJECTED:
+        progs.append(("alone", [r]))
+        progs.append(("same-twice", [r, r]))
+        progs.append(("same-thrice", [r, r, r]))
+        progs.append(("after-accepted", [ACCEPTED[0], r, ACCEPTED[1]]))
+    for i in range(len(REJECTED) - 1):
+        progs.append(("two-different", [REJECTED[i], REJECTED[i + 1], REJECTED[i]]))
+    proj = e2e.Project("c13hist")
+    try:
+        for k, (kind, invs) in enumerate(progs):
+            body = "".join(" { let v = mk(); assert_struct!(%s); }\n" % inv for inv in invs)
+            proj.add_bin("h%03d" % k, t3.HEADER + decl + "fn main() {\n" + body + "}\n")
+        res = proj.build(check_only=True)
+    finally:
+        proj.cleanup()
+    dist = {}
+    for k, (kind, invs) in enumerate(progs):
+        r = res["h%03d" % k]
+        msgs = [(d.get("message") or "") + " " + (d.get("rendered") or "") for d in r["diags"]]
+        bad = [m for m in msgs if "proc macro panicked" in m or "internal compiler error" in m or "use-after-free" in m or "panicked at" in m]
+        key = "%s: %s" % (kind, "panicked" if bad else ("compiles" if r["ok"] else "rejected with compile errors"))
+        dist[key] = dist.get(key, 0) + 1
+        if bad:
+            ck.report("panic-under-rustc:%s:%s" % (kind, hexs(invs[-1])[:30]), "the macro as invoked by the compiler panics / crashes the compiler on a rejected invocation (%s in one compilation)" % kind,
+                      dict(invocations=["assert_struct!(%s)" % i for i in invs], history=kind, rustc=bad[0][:600]))
+        elif r["ok"]:
+            ck.report("corr:rejected-compiles:%s" % hexs(invs[-1])[:30], "an invocation of the rejected family compiles under rustc", dict(invocations=invs, history=kind), no_input=True)
+    ck.corr_record("T3 rejected invocations under rustc, alone and repeated in one compilation (same one twice / three times, two different ones, before and after accepted ones): ordinary compile errors, never a panic of the macro",
+                   len(progs), len(progs), 0, dist, samples=[dict(history=progs[1][0], invocations=progs[1][1])], exhaustive=True,
+                   rule="%d rejected invocations (invalid regex literals, missing patterns, index mismatch, closure arity, misplaced `..`, unbalanced group, index out of range, wildcard struct without `..`) x 4 histories + adjacent pairs" % len(REJECTED))
 
 
 def re_key(msg):
